@@ -368,6 +368,7 @@ def CtxTok.name : CtxTok → String
 
 def ctxOfDigit : Char → Option CtxState
   | '0' => some .absent | '1' => some .live | '2' => some .cancelled | '3' => some .deadline
+  | '4' => some .live   -- context.Background() passed explicitly: present, never ends
   | _ => none
 
 def bit (b : Bool) : String := if b then "1" else "0"
